@@ -28,10 +28,25 @@ func main() {
 	if len(f.Args) > 0 && f.Args[0] == "count" {
 		for _, tier := range []string{"quick", "thorough"} {
 			n, q, r := 0, 0, 0
+			by := map[string][2]int{}
 			forEachCase(boundsOf(tier), func(c Case) bool {
 				n++
 				c.Menu = tier
 				q += len(menuFor(c))
+				wr, two := 0, "one"
+				for _, s := range c.Steps {
+					if s.Op == "w" {
+						wr++
+						if s.Series == "b" {
+							two = "two"
+						}
+					}
+				}
+				k := fmt.Sprintf("%s w=%d schema=%v", two, wr, c.Schema != "")
+				v := by[k]
+				v[0]++
+				v[1] += len(menuFor(c))
+				by[k] = v
 				for _, s := range c.Steps {
 					if s.Op == "R" {
 						r++
@@ -40,6 +55,14 @@ func main() {
 				return true
 			})
 			fmt.Fprintf(os.Stderr, "%s: cases=%d queries=%d reopens=%d\n", tier, n, q, r)
+			var ks []string
+			for k := range by {
+				ks = append(ks, k)
+			}
+			sort.Strings(ks)
+			for _, k := range ks {
+				fmt.Fprintf(os.Stderr, "   %-28s cases=%6d queries=%8d\n", k, by[k][0], by[k][1])
+			}
 		}
 		return
 	}
